@@ -72,6 +72,9 @@ type fqPlan struct {
 	PFail  float64  `json:"pfail,omitempty"`
 	PDelay float64  `json:"pdelay,omitempty"`
 	WinMs  int      `json:"win_ms,omitempty"` // burst window, default fqBurstWin
+	// Traffic: successful queue-modifying API calls (ScheduleJob of unrelated far-future jobs, one every 10 ms) arrive DURING the
+	// burst; each is an interrupt. The failing loop-side call must still be retried no faster than once per RetryInterval.
+	Traffic bool `json:"traffic,omitempty"`
 }
 
 // windowed: the faults of this plan are active during one time window that starts once the jobs are running
@@ -98,6 +101,9 @@ func (p fqPlan) String() string {
 	case "single":
 		return fmt.Sprintf("plan %d: queue call number %d %ss", p.ID, p.Index, p.Mode)
 	case "burst":
+		if p.Traffic {
+			return fmt.Sprintf("plan %d: every %s-side %s call %ss for %v while an unrelated job is scheduled every 10 ms", p.ID, p.Side, strings.Join(p.Ops, "/"), p.Mode, p.win())
+		}
 		return fmt.Sprintf("plan %d: every %s-side %s call %ss for %v", p.ID, p.Side, strings.Join(p.Ops, "/"), p.Mode, p.win())
 	case "spurious-empty":
 		return fmt.Sprintf("plan %d: for %v Size() reports %d while Head() and Pop() return an error wrapping ErrQueueEmpty", p.ID, p.win(), p.sizeReported())
@@ -506,6 +512,17 @@ func fqRunPlan(plan fqPlan) (rep fqReport) {
 			start = time.Now().Add(-60 * time.Millisecond)
 		}
 	}
+	if plan.Traffic {
+		for k := 0; time.Since(start) < phase; k++ {
+			name := fmt.Sprintf("burst-traffic%d", k)
+			if _, hung := h.fqDriver("ScheduleJob("+name+")", func() error {
+				return s.ScheduleJob(quartz.NewJobDetail(&fqNop{}, quartz.NewJobKey(name)), quartz.NewSimpleTrigger(time.Hour))
+			}); hung {
+				return rep
+			}
+			time.Sleep(10 * time.Millisecond)
+		}
+	}
 	if d := phase - time.Since(start); d > 0 {
 		time.Sleep(d)
 	}
@@ -567,6 +584,7 @@ func fqRunPlan(plan fqPlan) (rep fqReport) {
 	}
 	wc()
 	// the call log
+	failedInBurst := 0
 	q.mu.Lock()
 	rep.Calls = len(q.calls)
 	for _, c := range q.calls {
@@ -579,9 +597,16 @@ func fqRunPlan(plan fqPlan) (rep fqReport) {
 		}
 		if plan.windowed() && c.loop && !q.t0.IsZero() && c.at.After(q.t0) && c.at.Before(q.t0.Add(plan.win())) {
 			rep.BurstCalls++
+			if c.fault == "fail" {
+				failedInBurst++
+			}
 		}
 	}
 	q.mu.Unlock()
+	if allowed := int(plan.win()/fqRetry) + 3; plan.Traffic && failedInBurst > allowed {
+		rep.Violations = append(rep.Violations, fmt.Sprintf("C15 back-off not kept under API traffic: the failing loop-side call was made %d times within %v (RetryInterval %v allows %d): every interrupt retried the failing queue (%s)",
+			failedInBurst, plan.win(), fqRetry, allowed, plan))
+	}
 	if plan.windowed() && rep.BurstCalls > fqBurstLimit {
 		what := "while the queue was failing"
 		switch plan.Kind {
@@ -688,6 +713,9 @@ func faultsRun(args []string) int {
 		add(fqPlan{Kind: "spurious-empty", Mode: "empty", WinMs: w})
 	}
 	add(fqPlan{Kind: "spurious-empty", Mode: "empty", Index: 3})
+	for _, ops := range [][]string{{"pop"}, {"push"}, {"pop", "push"}} {
+		add(fqPlan{Kind: "burst", Mode: "fail", Ops: ops, Side: "loop", Traffic: true})
+	}
 	for _, w := range []int{0, 30, 60, 90} {
 		add(fqPlan{Kind: "empty-pop", Mode: "empty", WinMs: w})
 	}
